@@ -32,10 +32,10 @@ from egsim.props.common import deep_tier
 from egsim.seams import InjectedFault
 from edgegraph.structure import singleton
 
-CLASS_NAMES = ["A", "A1", "B", "C", "D", "E", "F", "G", "G1", "H"]
+CLASS_NAMES = ["A", "A1", "B", "C", "D", "E", "F", "G", "G1", "H", "K"]
 # classes whose metaclass is, or derives from, one generated metaclass object
 # share that object's registry (keyed by class)
-FAMILY = {"A": "a", "A1": "a", "B": "bc", "C": "bc", "D": "d", "E": "e", "F": "f", "G": "g", "G1": "g", "H": "g"}
+FAMILY = {"A": "a", "A1": "a", "B": "bc", "C": "bc", "D": "d", "E": "e", "F": "f", "G": "g", "G1": "g", "H": "g", "K": "k"}
 
 # argument pool, chosen to collide: -1/-2 (equal hashes, unequal values),
 # 1 / 1.0 / True (equal values), tuples built afresh on every use, strings
@@ -67,6 +67,17 @@ def hash_first(args, kwargs):
 
 def hash_kwnames(args, kwargs):
     return ",".join(sorted(kwargs))
+
+
+class FieldKey(tuple):
+    """
+    A custom hash function given as a callable OBJECT: the tuple names the
+    keywords that take part in the key besides the first positional argument.
+    An empty FieldKey ("first positional argument only") is falsy.
+    """
+
+    def __call__(self, args, kwargs):
+        return (args[0] if args else None,) + tuple(repr(kwargs.get(name)) for name in self)
 
 
 def make_classes(hook=None):
@@ -119,7 +130,10 @@ def make_classes(hook=None):
     G = meta_g("G", (object,), body("G"))
     G1 = meta_g("G1", (G,), body("G1"))
     H = m_g("H", (object,), body("H"))
-    return {"A": A, "A1": A1, "B": B, "C": Cc, "D": D, "E": E, "F": F, "G": G, "G1": G1, "H": H}
+    # a custom hash function that is a falsy callable object
+    m_k = singleton.semi_singleton_metaclass(FieldKey())
+    K = m_k("K", (object,), body("K"))
+    return {"A": A, "A1": A1, "B": B, "C": Cc, "D": D, "E": E, "F": F, "G": G, "G1": G1, "H": H, "K": K}
 
 
 def model_key(cls, args, kwargs):
@@ -127,6 +141,8 @@ def model_key(cls, args, kwargs):
         return ("first", hash_first(args, kwargs))
     if cls == "E":
         return ("kw", hash_kwnames(args, kwargs))
+    if cls == "K":
+        return ("first", hash_first(args, kwargs))
     return (args, json.dumps(kwargs, sort_keys=True))
 
 
@@ -189,8 +205,8 @@ class C17(engine.Property):
     rule = (
         "one evaluation = one seeded history of constructions, add_mapping, drop, check, "
         "get_all (also as a suspended generator resumed after work on other classes) and clear "
-        "over ten related classes (own metaclass, subclass, shared metaclass object, two custom "
-        "hash functions, falsy instances, a metaclass derived from a generated one with a "
+        "over eleven related classes (own metaclass, subclass, shared metaclass object, two custom "
+        "hash functions (one more given as a falsy callable object), falsy instances, a metaclass derived from a generated one with a "
         "subclass and a sibling on the base metaclass) with colliding argument values, "
         "checked against a per-class key->instance model after every step, every live key "
         "of every class re-queried each step; distinct = distinct event-log digest; "
@@ -225,6 +241,7 @@ class C17(engine.Property):
         "no-reference-held-construct-live-key",
         "keyword-value-equal-but-other-type",
         "dict-valued-keyword-in-other-insertion-order",
+        "falsy-callable-object-as-hash-function",
         "derived-metaclass-class-cleared-then-constructed",
         "suspended-get_all-resumed-after-work-on-other-classes",
     ]
@@ -269,7 +286,7 @@ class C17(engine.Property):
         for c in cfg["classes"]:
             live.extend(st.keyargs[c].values())
         with_kw = [x for x in live if x[1]]
-        if with_kw and cls not in ("D", "E") and rng.random() < 0.06:
+        if with_kw and cls not in ("D", "E", "K") and rng.random() < 0.06:
             # positional arguments shaped like the key of another call:
             # (its positionals, the canonical text of its keywords)
             a, kw = rng.choice(with_kw)
@@ -311,9 +328,9 @@ class C17(engine.Property):
             return args, kwargs
         n = rng.randint(0, cfg["max_args"])
         args = [ARG_POOL[rng.choice(cfg["pool"])] for _ in range(n)]
-        if allow_bad and cls not in ("D", "E") and rng.random() < cfg.get("p_unkeyable", 0.0):
+        if allow_bad and cls not in ("D", "E", "K") and rng.random() < cfg.get("p_unkeyable", 0.0):
             bad = {"unhashable": rng.choice(["list", "set"])}
-            if rng.random() < 0.6 or cls in ("D", "E"):
+            if rng.random() < 0.6 or cls in ("D", "E", "K"):
                 args = args + [bad]
             else:
                 return args, [["x", {"unhashable": "set"}]]
@@ -321,7 +338,7 @@ class C17(engine.Property):
         if rng.random() < cfg["p_kwargs"]:
             names = rng.sample(KW_NAMES, rng.randint(1, 3))
             kwargs = [[nm, ARG_POOL[rng.choice(cfg["pool"])]] for nm in names]
-            if cls not in ("D", "E") and rng.random() < 0.2:
+            if cls not in ("D", "E", "K") and rng.random() < 0.2:
                 entries = [[k, rng.choice([1, 2, "v"])] for k in rng.sample(["CC", "LD", "AR", "x"], rng.randint(2, 3))]
                 kwargs[0][1] = {"dict": entries}
         return args, kwargs
@@ -698,13 +715,15 @@ class C17(engine.Property):
             s["probe:derived-metaclass-class-cleared-then-constructed"] += 1
         if cls == "F":
             s["probe:falsy-instance-class-used"] += 1
+        if cls == "K":
+            s["probe:falsy-callable-object-as-hash-function"] += 1
         if cls in ("B", "C") and st.model["B" if cls == "C" else "C"]:
             s["probe:shared-metaclass-both-classes-used"] += 1
         for c in st.cfg["classes"]:
             if c != cls and key in st.model[c]:
                 s["probe:same-arguments-on-two-classes"] += 1
                 break
-        if cls not in ("D", "E"):
+        if cls not in ("D", "E", "K"):
             try:
                 hk = hash(key)
             except TypeError:
